@@ -133,6 +133,18 @@ PROPS = {
         "assumptions": ["structural equality is decided by /repo's own `equal` (C05)"],
         "partial": ["that the evaluated factory denotes the source service is established by the implementation-level oracle on generated programs only; theorems: scoping of the emitted statements for every program, closure and totality of the analysis, ident never yields a reserved word and is injective"],
     },
+    "C19": {
+        "profiles": ["debug"],
+        "rule": "programs from the C14 generator printed as .did text with doc comments (plain text, comment terminators and openers, quotes, backticks, template and handlebars syntax, attribute-like text, non-ASCII) before definitions and the actor; a quarter of the definitions renamed to keywords and prelude names of the target languages; hostile method names in any service; with and without a main service, with and without init args; "
+                "each program goes through the JavaScript, TypeScript, Motoko and Rust (canister_call, agent, stub templates) generators twice (no panic, same output); every output is scanned with the target's comment / string / bracket rules, every Rust output is parsed by syn and its static byte string compared with its declared length, JavaScript output is lexed strictly; doc text must sit inside a comment, every method of the service is mentioned; "
+                "Motoko is skipped when some method name is not an identifier (documented limit); plus the spelling of every Motoko keyword and of hostile names as field labels, and doc lines over {*, /, backslash, a, space}; every request is non-trivial; distinct = distinct request lines",
+        "trusted": [
+            "harness-side scanners for comments / strings / brackets of JavaScript, Motoko and Rust; syn 2 as the Rust parser; no TypeScript or Motoko compiler is available: closure of those outputs rests on the analysis theorems (all definitions of the environment are emitted) and the scanners",
+            "Motoko keyword table and the order of tests in `escape` are re-extracted on every run",
+        ],
+        "assumptions": ["custom Rust templates and binding configuration files are not exercised", "doc comments on fields and methods are not generated (definitions and actor only)"],
+        "partial": ["totality, determinism and lexical integrity of the printers are established by correspondence on generated programs only; theorems: totality and closure of the shared analysis, Motoko names are identifiers / not keywords / stay distinct, a TypeScript doc line cannot end its comment"],
+    },
     "C15": {
         "profiles": ["debug"],
         "rule": "hash: every ASCII string of length <= 2 (exhaustive), two-byte UTF-8 scalars, random strings <= 64 scalars over the full Unicode range; labels: lists of 0-5 labels mixing names (identifiers, keywords, arbitrary Unicode, "
